@@ -21,6 +21,7 @@ from .common import (REPO, VERIF, HarnessError, Outcome, ViolationFound, jsonabl
                      stable_hash, unjson)
 
 KNOWN_PATH = os.path.join(VERIF, "known_findings.json")
+OUT = os.environ.get("VERIF_OUT") or VERIF  # self-tests against mutants write evidence/replays elsewhere
 MAX_KEYS = 3_000_000
 
 
@@ -68,6 +69,7 @@ class LayerStats:
         self.evals = 0
         self.keys: set[int] = set()
         self.tags = collections.Counter()
+        self.metrics = collections.Counter()
         self.samples: list = []
         self.excluded = collections.Counter()
         self.failures: list = []  # [(case, violations)]
@@ -80,6 +82,8 @@ class LayerStats:
         self.evals += 1
         for tg in out.tags:
             self.tags[tg] += 1
+        for mk, mv in out.metrics.items():
+            self.metrics[mk] += mv
         if out.nontrivial:
             k = stable_hash(out.key if out.key is not None else case)
             new = k not in self.keys
@@ -96,7 +100,7 @@ class LayerStats:
                         del self.samples[2]
 
     def to_dict(self):
-        return {"evals": self.evals, "keys": self.keys, "tags": dict(self.tags), "samples": self.samples,
+        return {"evals": self.evals, "keys": self.keys, "tags": dict(self.tags), "metrics": dict(self.metrics), "samples": self.samples,
                 "excluded": dict(self.excluded), "failures": self.failures,
                 "harness_error": self.harness_error, "enum_total": self.enum_total,
                 "enum_done": self.enum_done}
@@ -207,14 +211,14 @@ def _worker(args):
 # --------------------------------------------------------------------------- main
 
 def write_replay(prop_id, layer, case_json, violations, seed):
-    d = os.path.join(VERIF, "replays")
+    d = os.path.join(OUT, "replays")
     os.makedirs(d, exist_ok=True)
     h = stable_hash([layer, case_json]) & 0xFFFFFFFFFF
     path = os.path.join(d, f"{prop_id}-{h:010x}.json")
     with open(path, "w") as f:
         json.dump({"property": prop_id, "layer": layer, "seed": seed, "case": case_json,
                    "violations": violations}, f, indent=1, sort_keys=True)
-    return os.path.relpath(path, VERIF)
+    return os.path.relpath(path, OUT) if OUT == VERIF else path
 
 
 def run_replay(prop, path, known):
@@ -322,6 +326,7 @@ def main(argv=None):
     evals = 0
     keys: set[int] = set()
     tags = collections.Counter()
+    metrics = collections.Counter()
     samples = []
     excluded = collections.Counter()
     failures = []
@@ -338,6 +343,7 @@ def main(argv=None):
             evals += st["evals"]
             keys |= st["keys"]
             tags.update(st["tags"])
+            metrics.update(st["metrics"])
             excluded.update(st["excluded"])
             for s in st["samples"]:
                 s = dict(s)
@@ -386,6 +392,7 @@ def main(argv=None):
         "samples": samples,
         "layers": per_layer,
         "tag_histogram": dict(sorted(tags.items())),
+        "metrics": dict(sorted(metrics.items())),
         "excluded_known": dict(excluded),
         "corpus_replayed": n_corpus,
         "workers": nshards,
@@ -411,8 +418,8 @@ def main(argv=None):
         "violations": len(replay_paths),
         "known_findings_open": [f["id"] for f in open_known],
     }
-    os.makedirs(os.path.join(VERIF, "evidence"), exist_ok=True)
-    with open(os.path.join(VERIF, "evidence", f"{prop_id}.json"), "w") as f:
+    os.makedirs(os.path.join(OUT, "evidence"), exist_ok=True)
+    with open(os.path.join(OUT, "evidence", f"{prop_id}.json"), "w") as f:
         json.dump(evidence, f, indent=1, sort_keys=True)
         f.write("\n")
 
